@@ -102,6 +102,12 @@ CHECKS = {
         text="PROVED (lemma, all names): the name returned by _set_name_and_type has no leading asterisk, is a suffix of the original and equals it when there was none. "
              "BOUNDED only — the postcondition itself: shape, allowed keys, parsable type strings, string descriptions, signature parameters present exactly once, on docstring / function / class (incl. merge_inner_function) / pydantic / argparse / json_schema / sqlalchemy parsers over grammar-generated docstrings, generated code and arbitrary token strings. Six known-finding classes on the pinned tree.",
         note="The parsers themselves are outside the engine's reach; running the repository's own tests under the wrappers (planned in DESIGN) was not built."),
+    "C03": dict(
+        category="other", design_ref="DESIGN.md §5 C03",
+        technique="lemma over the hop contracts proved in Lean 4 (closure + commutation for chains of any length); the hop contracts H1/H2 themselves checked as run-time contracts on the real emitters/parsers over conversion chains",
+        text="PROVED (Lean kernel, no axioms): if every hop preserves the interface on a set E and E is closed under hops, then every chain of any length preserves it and any two chains commute. "
+             "BOUNDED only: the hypotheses — every sequence of length <= 3 (sampled to 5) over {class, pydantic, function, argparse, docstring-rest} from the common-domain slice of IR(n), comparing names, order, types and defaults with the start. Unbounded in chain length, bounded in the start set. Three known-finding classes (starts with a missing, None or empty-string default).",
+        note="The Lean statement is about an abstract hop function; that the real hops satisfy H1/H2 is only checked within the bound."),
 }
 
 NA_REASON = "check not built yet (work in progress; see DESIGN.md for the plan)"
@@ -121,6 +127,7 @@ m = {
         {"name": "cddvc-E2", "path": "cddvc/effects.py", "serves_properties": ["C17", "C20"], "kind_free_text": "effect / frame checker over the call graph, flag-guard dominance; cddvc/charset.py refinement check"},
         {"name": "cddvc-E3", "path": "cddvc/imports.py", "serves_properties": ["C18"], "kind_free_text": "import-protocol simulator over module-level statements + real-interpreter replay"},
         {"name": "cddvc-E4", "path": "cddvc/ordered.py", "serves_properties": ["C10"], "kind_free_text": "orderedness typing rules + cross-call-state rules"},
+        {"name": "lean4", "path": "lean/C03.lean", "serves_properties": ["C03"], "kind_free_text": "Lean 4.33 kernel: chain closure lemma over the hop contracts"},
         {"name": "cddvc-E5", "path": "cddvc/termination.py", "serves_properties": ["C11"], "kind_free_text": "termination rules over the import-aware call graph (cddvc/callgraph.py)"},
     ],
     "checks": [],
